@@ -2,6 +2,8 @@
 # false-alarm self-test: behaviour-preserving edits of /repo (scratch worktree each); every check must stay at exit 0.
 # usage: tools/harmless.sh [case...]
 cd /verif
+# the stand-in search only matters for "violation with a real failing input"; HARMLESS_CEX=1 switches it on here
+[ -z "$HARMLESS_CEX" ] && export PQ_NO_CEX=1
 declare -A CASES
 CASES[h1_ties_ge]="sed -i 's/if childp > largestp {/if childp >= largestp {/' src/priority_queue/mod.rs"
 CASES[h2_len_vs_size]="sed -i '0,/match self.len() {/s//match self.store.size {/' src/priority_queue/mod.rs"
